@@ -211,9 +211,10 @@ def match_finding(v, findings):
             continue
         if f.get("property") != v["property"]:
             continue
-        m = f.get("match", {})
-        if all(v["sig"].get(k) == val for k, val in m.items()):
-            return f
+        ms = f.get("match", {})
+        for m in (ms if isinstance(ms, list) else [ms]):
+            if all(v["sig"].get(k) == val for k, val in m.items()):
+                return f
     return None
 
 
